@@ -8,6 +8,7 @@ the Gallina model of the selection logic (Model/Selector.v through CheckC14.agre
 "same selection up to the renaming, copy of the target returned" is evaluated in Coq
 (CheckC15.C15_b) and in Python (oracle, for search / shrink / replay)."""
 import copy
+import math
 
 import common as C
 from props import c14
@@ -21,7 +22,11 @@ def isnan(v):
     return isinstance(v, float) and v != v
 
 
-def transform(rng, a, kind, target=None):
+# ~1e-15, 1e-12, 1e-9, 1e9, 1e12: powers of two, exact in binary64
+EXTREME = [2.0 ** -50, 2.0 ** -40, 2.0 ** -40, 2.0 ** -30, 2.0 ** 30, 2.0 ** 40]
+
+
+def transform(rng, a, kind, target=None, extreme=False):
     """returns (b, ren: {name_in_a: name_in_b}, must: list of names of a that must be returned)"""
     b = copy.deepcopy(a)
     ren = {n: n for n, _ in a["quanti"] + a["quali"]}
@@ -30,7 +35,15 @@ def transform(rng, a, kind, target=None):
         i = rng.randrange(len(a["quanti"])) if target is None else target
         col = decs(a["quanti"][i][1])
         f = -1 if kind == "negate" else rng.choice([2, 3, 0.5, 10, 7])
-        new = [v if isnan(v) else v * f for v in col]
+        off = 0
+        if kind == "scale" and (extreme or rng.random() < 0.35):
+            # factors far from 1 (powers of two: every product is exact), also with an offset when the
+            # sum is exact too (strictly increasing affine map: same information)
+            f = rng.choice(EXTREME)
+            obs = [v for v in col if not isnan(v) and not math.isinf(v)]
+            if obs and max(abs(v) for v in obs) < 2048 and all(float(2 * v).is_integer() for v in obs):
+                off = rng.choice([0, 0, 1, -7, 2.0 ** 20]) if f < 1 else rng.choice([0, 0, 1, -7])
+        new = [v if isnan(v) else v * f + off for v in col]
         if any(isinstance(v, float) for v in new):
             new = [float(v) for v in new]
         b["quanti"][i][1] = encs(new)
@@ -126,6 +139,10 @@ def gen_special_pair(rng, which):
         a = c14.gen_iqr_case(rng)
         k = rng.choice(["negate"] * 5 + ["scale"])
         a2, b, ren, must = transform(rng, a, k, target=0)
+    elif which == "inf":  # +-inf cells: negation swaps them, a strictly increasing map keeps them
+        a = c14.gen_inf_case(rng)
+        k = rng.choice(["negate", "negate", "negate", "scale"])
+        a2, b, ren, must = transform(rng, a, k, target=0)
     elif which == "tiny":  # as many rows as columns of the association table
         a = c14.gen_tiny_case(rng)
         k = rng.choice(["perm_rows", "perm_cols", "rename_feat", "copy", "copy", "perm_x_only"])
@@ -180,6 +197,67 @@ def gen_colsample_pair(rng):
     b = copy.deepcopy(a)
     b["rseed"] = rng.randrange(10 ** 6)
     return {"kind": "colsample", "a": a, "b": b, "ren": {f: f for f in qn + ln}, "must": must, "free": True}
+
+
+def gen_extreme_scale_pair(rng):
+    """positive rescaling by a factor far from 1 (2^-40 ... 2^40, optionally with an offset)"""
+    for _ in range(50):
+        a = c14.gen_case(rng)
+        nf = len(a["quanti"]) + len(a["quali"])
+        if not a["quanti"] or not 0 < a["n_best"] <= nf + 1 or a["n"] < 12:
+            continue
+        if rng.random() < 0.7 and "kruskal" not in c14.case_lists(a, "float")[0]:
+            continue  # mostly the rank-based default measure of ClassificationSelector
+        # rescale a feature that varies (a constant / all-missing one is left out anyway)
+        idx = [i for i, (_, col) in enumerate(a["quanti"])
+               if len({v for v in decs(col) if not isnan(v)}) > 2]
+        if not idx:
+            continue
+        a2, b, ren, must = transform(rng, a, "scale", target=rng.choice(idx), extreme=True)
+        return {"kind": "scale", "a": a2, "b": b, "ren": ren, "must": must}
+    raise RuntimeError("no pair generated")
+
+
+def gen_yates_pair(rng):
+    """exact (relabelled) copy of a BINARY target among qualitative features + a finer feature nested
+    in the classes (+ noise), n_best = 1 or below the number of features, several class balances:
+    the 2 x 2 table of the copy gets scipy's Yates correction, the finer feature does not"""
+    n0, n1 = rng.choice([(6, 6), (2, 18), (3, 27), (5, 10), (10, 10), (4, 8), (9, 3)])
+    y = [0] * n0 + [1] * n1
+    rng.shuffle(y)
+    labs = rng.choice([[0, 1], [1, 11], ["c0", "c1"]])
+    copy_ = ["T%d" % v for v in y]
+    split = rng.choice(["one", "both"])
+    finer = []
+    for v in y:
+        if v == 1 or split == "both":
+            finer.append("%s%d" % ("pq"[v], rng.randrange(rng.choice([2, 2, 3]))))
+        else:
+            finer.append("p")
+    for v in (0, 1):  # every sub-category is observed
+        idx = [i for i, w in enumerate(y) if w == v]
+        if v == 1 or split == "both":
+            for k_, i in enumerate(idx[:2]):
+                finer[i] = "%s%d" % ("pq"[v], k_)
+    cols, names = [copy_, finer], ["copy", "finer"]
+    for i in range(rng.choice([0, 0, 1, 2])):
+        cols.append(["abc"[rng.randrange(3)] for _ in y])
+        names.append("s%d" % i)
+    order = list(range(len(cols)))
+    rng.shuffle(order)
+    lm = rng.choice([None, ["cramerv"], ["cramerv"], ["tschuprowt"]])
+    lf = rng.choice([[], [], None])
+    a = c14.mk_case("classification", [labs[v] for v in y], [], [cols[i] for i in order],
+                    rng.choice([1, 1, max(1, len(cols) - 1)]), None, lm, None, lf, {},
+                    lnames=[names[i] for i in order])
+    k = rng.choice(["same", "perm_rows"])
+    b = copy.deepcopy(a)
+    if k == "perm_rows":
+        idx = list(range(a["n"]))
+        rng.shuffle(idx)
+        b["y"] = [a["y"][i] for i in idx]
+        b["quali"] = [[nm, [col[i] for i in idx]] for nm, col in a["quali"]]
+    return {"kind": "copy", "a": a, "b": b, "ren": {f: f for f in names}, "must": ["copy"]}
 
 
 def type_of(case, name):
@@ -246,7 +324,10 @@ class C15(Prop):
                 + [gen_special_pair(rng, "filter") for _ in range(8 * ns)]
                 + [gen_pair(rng, rng.choice(["perm_x_only", "perm_y_only"])) for _ in range(24 * ns)]
                 + [gen_colsample_pair(rng) for _ in range(40 * ns)]
-                + [gen_special_pair(rng, "tiny") for _ in range(12 * ns)])
+                + [gen_special_pair(rng, "tiny") for _ in range(12 * ns)]
+                + [gen_yates_pair(rng) for _ in range(12 * ns)]
+                + [gen_extreme_scale_pair(rng) for _ in range(24 * ns)]
+                + [gen_special_pair(rng, "inf") for _ in range(16 * ns)])
 
     def search_cases(self, rng, neighbours, rnd):
         return [gen_pair(rng) for _ in range(50)]
@@ -299,7 +380,10 @@ class C15(Prop):
                     elif s is not None:
                         better = [g for g in sel if g in row and row[g]["spec"][last] is not None
                                   and row[g]["spec"][last] >= s]
-                        ok = (len(better) >= t["n_best"]
+                        # n_best returned features EXACTLY as associated as the copy (a tie at the top:
+                        # the copy is a perfect predictor, nothing may be strictly better), or the copy is
+                        # too associated with such a returned feature
+                        ok = ((len(better) >= t["n_best"] and all(row[g]["spec"][last] == s for g in better))
                               or any(flt["mat"][(f, g)] >= flt["thresh"] for flt in t["filters"] for g in better))
                 if not ok:
                     extra = ""
@@ -318,6 +402,28 @@ class C15(Prop):
                         fails.append(("partition", f"run {side}: the measured samples {cs['observed']} are not a "
                                                    f"partition of the shuffled {d} features {cs['shuffled']}"))
         return ta, tb, ties, fails
+
+    @staticmethod
+    def yates_outranked(case, out):
+        a = case["a"]
+        if len({str(v) for v in decs(a["y"])}) != 2:
+            return False
+        for side in ("a", "b"):
+            t = c14.build_tables(case[side], out[side]).get("str")
+            if t is None or not t["ms"] or t["ms"][-1] not in ("cramerv", "tschuprowt"):
+                continue
+            row = {r["name"]: r for r in t["rows"]}
+            cols = {n: decs(c) for n, c in case[side]["quali"]}
+            for f in case["must"]:
+                f2 = f if side == "a" else case["ren"][f]
+                if f2 not in row or f2 in (out[side]["sel"] or []):
+                    continue
+                s = row[f2]["spec"][-1]
+                if len({v for v in cols[f2] if not isnan(v)}) == 2 and any(
+                        g in row and row[g]["spec"][-1] is not None and s is not None and row[g]["spec"][-1] > s
+                        and len({v for v in cols[g] if not isnan(v)}) > 2 for g in (out[side]["sel"] or [])):
+                    return True
+        return False
 
     @staticmethod
     def boundary(tabs):
@@ -339,7 +445,7 @@ class C15(Prop):
         for tag, m in fails:
             sig = None
             reg_default = (a["task"] == "regression" and a["quanti"]
-                           and c14.case_lists(a, "float")[0] == ["distance"])
+                           and [k for k in c14.case_lists(a, "float")[0] if k not in c14.GATES] == ["distance"])
             if tag == "copy" and reg_default and all(type_of(a, f) == "float" for f in case["must"]):
                 sig = "regression_default_distance_measure_sign"
             elif tag == "different" and reg_default and case["kind"] == "negate":
@@ -351,6 +457,10 @@ class C15(Prop):
                     len(c14.case_lists(a, type_of(a, f))[0]) >= 2 or c14.case_lists(a, type_of(a, f))[0] == ["chi2"]
                     for f in case["must"]):
                 sig = "second_measure_never_computed"
+            elif tag == "copy" and self.yates_outranked(case, out):
+                # the copy of a BINARY target is a 2 x 2 table (Yates-corrected chi2), a finer feature
+                # nested in the classes is not corrected and is ranked before it
+                sig = "yates_copy_of_binary_target_outranked_by_finer_feature"
             elif tag == "copy" and a.get("colsample") is not None and a["n_best"] == 1:
                 # O42 (fixed by /repo f64757f): the pre-selection kept n_best // 2 = 0 features per sample
                 sig = "colsample_nbest1_preselects_nothing"
